@@ -106,6 +106,27 @@ Theorem c16_flush_executes : forall cf s i k b s', b <> [] ->
 Proof. exact flush_executes. Qed.
 Print Assumptions c16_flush_executes.
 
+(* LessExecutor: the first task is always executed, whatever the threshold and the clock; afterwards (the clock
+   being positive, so that a recorded execution time is not the "never" mark 0) a task within the threshold of the
+   last execution is discarded and a task after it is executed *)
+Theorem c16_less_first : forall thr now, less_step thr 0 now = (true, now).
+Proof. intros. reflexivity. Qed.
+Print Assumptions c16_less_first.
+
+Theorem c16_less_within : forall thr last now, last <> 0 -> now - last < thr -> less_step thr last now = (false, last).
+Proof.
+  intros thr last now H1 H2. unfold less_step.
+  destruct (last =? 0) eqn:E1; [lia|]. destruct (last + thr <? now) eqn:E2; [lia|]. reflexivity.
+Qed.
+Print Assumptions c16_less_within.
+
+Theorem c16_less_after : forall thr last now, thr < now - last -> less_step thr last now = (true, now).
+Proof.
+  intros thr last now H. unfold less_step.
+  destruct (last + thr <? now) eqn:E2; [|lia]. rewrite orb_true_r. reflexivity.
+Qed.
+Print Assumptions c16_less_after.
+
 (* the WaitGroup counter never goes negative *)
 Theorem c16_no_panic : forall cf s, reachable cf s -> s_panicked s = false.
 Proof. exact no_panic. Qed.
